@@ -1642,7 +1642,7 @@ func (c *compiler) VisitTernaryExpr(e *ast.TernaryExpr) ast.VisitResult {
 		falseBlock = c.cbb
 
 		// simple case, where both can be treated the same way
-		if lhsIsTemp == rhsIsTemp {
+		if lhsIsTemp == rhsIsTemp || lhsTyp.IsPrimitive() {
 			c.latestIsTemp = lhsIsTemp
 		} else {
 			c.latestIsTemp = true
